@@ -21,7 +21,8 @@ def case_fn(case: dict, d):
     if not g["ok"]:
         return {"gen_ok": False, "gen_error": g["error"]}
     calls = [{"id": i, "module": c["module"], "cls": c["cls"], "method": c["method"], "args": c["args"], "reply": c["reply"],
-              "transport": c.get("transport", "bundled")} for i, c in enumerate(case["calls"])]
+              "transport": c.get("transport", "bundled"), **({"session": c["session"], "transport_kwargs": c.get("transport_kwargs", {})} if c.get("session") else {})}
+             for i, c in enumerate(case["calls"])]
     pr = e2e.probe(root, "pkg.client", None, [{"task": "calls", "calls": calls}])
     return {"gen_ok": True, "probe": pr}
 
@@ -59,6 +60,14 @@ def build_cases(ctx, stream: str, n: int) -> list[dict]:
                 plan["op"] = {"path": path, "method": m, "operationId": op["operationId"]}
                 for loc in opsrig.locate_all(op):      # every tag client's rendering of a multi-tag operation
                     calls.append({**plan, **loc})
+        if i % 2 == 0:
+            # all calls of this document go through ONE bundled transport that was built with default headers: what one call put on
+            # the wire must not show up in the next (each request is judged on its own arguments)
+            r.shuffle(calls)
+            for c in calls:
+                c["session"] = "s"
+                c["transport_kwargs"] = {"default_headers": {"X-Client": "verif", "Accept-Language": "en"}}
+                c["expect"] = {**c["expect"], "default_headers": c["transport_kwargs"]["default_headers"]}
         cases.append({"id": f"{stream}-{i}", "stream": stream, "doc": doc, "calls": calls})
     return cases
 
